@@ -125,6 +125,7 @@ def run(ctx):
                         timeout=900 if ctx.quick else 3000, **kw)
     for topo, spec, num, depth, kw in sc['conf']:
         eng.conformance(topo, spec, num, depth, **kw)
+    eng.cover(topos.eph_side(maxseq=0), 'SpecZL', max_paths=150 if ctx.quick else None)
     for topo, n, steps, pt, pd in sc['rand']:
         eng.random_runs(topo, n, steps, p_timeout=pt, p_drop=pd, tag='rand', validate=3 if ctx.quick else 25)
     for topo, n, steps, mode in sc['diff']:
